@@ -228,16 +228,38 @@ theorem markOccupied_w (u : Sim.U K) (i : Nat) (e : Elem) (t : K) : (Sim.markOcc
 theorem markHit_w (u : Sim.U K) (i : Option Nat) (n : Node) (t : K) : (Sim.markHit u i n t).w = u.w := by
   unfold Sim.markHit; split <;> rfl
 
-/-- a shipped handler keeps every locus equal to its tracked set, whatever the queue does -/
+/-- the actions a handler of a shipped model may consist of: the SIR-style ones (`Shipped`), and — for SIvR / Vaccinate —
+    vaccination marks and updates of *plain* marker loci, which no tracking invariant constrains -/
+def OkAct (cfg : Sim.Cfg K) : Sim.Act K → Prop
+  | .vaccinate => True
+  | .plainLeave l => cfg.comp.kind l = .plain
+  | .sivrInfect _ _ _ _ ln lv => cfg.comp.kind ln = .plain ∧ cfg.comp.kind lv = .plain
+  | a => Shipped a
+
+theorem okAct_of_shipped (cfg : Sim.Cfg K) (a : Sim.Act K) (h : Shipped a) : OkAct cfg a := by
+  cases a <;> first | exact h | (simp [Shipped, shippedB] at h)
+
+theorem invAll_updPlain (cfg : Comp.Cfg) (loc : Nat) (hk : cfg.kind loc = .plain) (w : W) (f : LSet → LSet) (h : InvAll cfg w) :
+    InvAll cfg (updLocus w loc f) := by
+  intro i
+  have hi := h i
+  by_cases hil : i = loc
+  · subst hil; rw [hk]; trivial
+  · cases hkk : cfg.kind i with
+    | plain => trivial
+    | node a b => rw [hkk] at hi; simp only [updLocus, if_neg hil]; exact hi
+    | edge a L R pf => rw [hkk] at hi; simp only [updLocus, if_neg hil]; exact hi
+
+/-- a handler of a shipped model keeps every locus equal to its tracked set, whatever the queue does -/
 theorem handler_keeps (cfg : Sim.Cfg K) (wf : WfCfg cfg.comp) (t : K) (e : Elem) : ∀ (acts : List (Sim.Act K)),
-    (∀ a ∈ acts, Shipped a) → ∀ (s : Queue.St K (Sim.U K) Elem), WorldOK cfg s.u →
+    (∀ a ∈ acts, OkAct cfg a) → ∀ (s : Queue.St K (Sim.U K) Elem), WorldOK cfg s.u →
       WorldOK cfg (Queue.exec (Sim.runActs cfg acts t e) s).u := by
   intro acts
   induction acts with
   | nil => intro _ s h; exact h
   | cons a as ih =>
     intro hs s h
-    have hs' : ∀ a ∈ as, Shipped a := fun a ha => hs a (List.mem_cons_of_mem _ ha)
+    have hs' : ∀ a ∈ as, OkAct cfg a := fun a ha => hs a (List.mem_cons_of_mem _ ha)
     have ha := hs a List.mem_cons_self
     cases a with
     | ccLeft inst c =>
@@ -276,23 +298,48 @@ theorem handler_keeps (cfg : Sim.Cfg K) (wf : WfCfg cfg.comp) (t : K) (e : Elem)
           · unfold WorldOK; rw [markHit_w, markOccupied_w]; exact hok
           · exact hok
         · simp only [Queue.exec]; apply ih hs'; unfold WorldOK; rw [hw]; exact h
-    | cc _ _ _ => exact absurd ha (by simp [Shipped, shippedB])
-    | setc _ _ _ => exact absurd ha (by simp [Shipped, shippedB])
-    | addNode _ _ _ => exact absurd ha (by simp [Shipped, shippedB])
-    | rmNode _ _ => exact absurd ha (by simp [Shipped, shippedB])
-    | addEdge _ _ _ => exact absurd ha (by simp [Shipped, shippedB])
-    | rmEdge _ _ _ => exact absurd ha (by simp [Shipped, shippedB])
-    | adAdd _ _ _ => exact absurd ha (by simp [Shipped, shippedB])
-    | vaccinate => exact absurd ha (by simp [Shipped, shippedB])
-    | sivrInfect _ _ _ _ _ _ => exact absurd ha (by simp [Shipped, shippedB])
-    | plainLeave _ => exact absurd ha (by simp [Shipped, shippedB])
-    | adDel _ _ => exact absurd ha (by simp [Shipped, shippedB])
+    | cc _ _ _ => exact absurd ha (by simp [OkAct, Shipped, shippedB])
+    | setc _ _ _ => exact absurd ha (by simp [OkAct, Shipped, shippedB])
+    | addNode _ _ _ => exact absurd ha (by simp [OkAct, Shipped, shippedB])
+    | rmNode _ _ => exact absurd ha (by simp [OkAct, Shipped, shippedB])
+    | addEdge _ _ _ => exact absurd ha (by simp [OkAct, Shipped, shippedB])
+    | rmEdge _ _ _ => exact absurd ha (by simp [OkAct, Shipped, shippedB])
+    | adAdd _ _ _ => exact absurd ha (by simp [OkAct, Shipped, shippedB])
+    | vaccinate => simp only [Sim.runActs, Queue.exec]; exact ih hs' _ h
+    | plainLeave l =>
+      simp only [Sim.runActs, Queue.exec]
+      exact ih hs' _ ⟨h.1, invAll_updPlain cfg.comp l ha s.u.w (fun x => TSet.discard x (eN e.1)) h.2⟩
+    | sivrInfect i c off eff ln lv =>
+      have take_ok : ∀ (u : Sim.U K) (loc : Nat), cfg.comp.kind loc = .plain → u.w = s.u.w →
+          WorldOK cfg (Sim.markHit (Sim.markOccupied
+            ({ u with w := updLocus (changeCompartment cfg.comp u.w i e.1 c) loc (·.add (eN e.1)) } : Sim.U K) i e t) (some i) e.1 t) := by
+        intro u loc hk hw
+        unfold WorldOK; rw [markHit_w, markOccupied_w, hw]
+        obtain ⟨h1, _⟩ := changeCompartment_net cfg.comp wf s.u.w i e.1 c
+        exact ⟨by show NetOK (changeCompartment cfg.comp s.u.w i e.1 c).net; rw [h1]; exact h.1,
+               invAll_updPlain cfg.comp loc hk _ (fun x => TSet.add x (eN e.1)) (changeCompartment_inv cfg.comp wf s.u.w i e.1 c h.1.sym h.2)⟩
+      simp only [Sim.runActs, Queue.exec]
+      split
+      · split
+        · split
+          · exact h
+          · rename_i r u' hr
+            have hw : u'.w = s.u.w := by
+              unfold Sim.popF at hr; split at hr
+              · simp only [Option.some.injEq, Prod.mk.injEq] at hr; rw [← hr.2]
+              · simp at hr
+            split
+            · simp only [Queue.exec]; exact ih hs' _ (take_ok u' lv ha.2 hw)
+            · simp only [Queue.exec]; apply ih hs'; unfold WorldOK; rw [hw]; exact h
+        · simp only [Queue.exec]; exact ih hs' _ (take_ok s.u ln ha.1 rfl)
+      · simp only [Queue.exec]; exact ih hs' _ (take_ok s.u ln ha.1 rfl)
+    | adDel _ _ => exact absurd ha (by simp [OkAct, Shipped, shippedB])
 
 /-- **whole runs**: for a process whose handlers are shipped-style action scripts and whose tap only reads, loci equal
     their tracked sets after set-up and after every event of any run of either dynamics (so at every point user code can
     observe), whatever the schedule -/
 theorem runs_keep (cfg : Sim.Cfg K) (wf : WfCfg cfg.comp) (tap : Dyn.Fired K Elem Sim.Loc → Queue.St K (Sim.U K) Elem → Sim.U K)
-    (hsh : ∀ h, ∀ a ∈ cfg.handlers h, Shipped a) (htap : ∀ ev s, (tap ev s).w = s.u.w) :
+    (hsh : ∀ h, ∀ a ∈ cfg.handlers h, OkAct cfg a) (htap : ∀ ev s, (tap ev s).w = s.u.w) :
     Dyn.Pres (Sim.mkProc cfg tap) (WorldOK cfg) := by
   refine ⟨?_, ?_, ?_, ?_⟩
   · intro h t e s hi; exact handler_keeps cfg wf t e (cfg.handlers h) (hsh h) s hi
